@@ -20,4 +20,10 @@ MUTANTS = [
     M('C19', 'screen: raises a builtin', SC, "            raise IODeviceException(f'screen bpp must be 4 or 8, got {bpp}')", "            raise ValueError(f'screen bpp must be 4 or 8, got {bpp}')", 'C19.SCREEN-REJECT'),
     M('C19', 'device data-bit offset off by one', DM, "        return self.memory_width.bit_length()\n", "        return self.memory_width.bit_length() - 1\n", 'C19.DBIT'),
     M('C19', 'EQ reader adapter names its mask', 'flipjump/interpreter/io_devices/device_memory.py', "        return self._reader.memory.get(word_address & ((1 << self.memory_width) - 1), 0)", "        word_mask = (1 << self.memory_width) - 1\n        return self._reader.memory.get(word_address & word_mask, 0)", None),
+    M('C19', 'update_rectangle stores the raw byte (seed C19_3)', SC, "= line[col] & pixel_mask\n", "= line[col]\n", 'C19.PIXEL-MASK'),
+    M('C19', 'update_screen_raw keeps the stream bytes unmasked', SC, "        self.pixel_indices = [pixel & pixel_mask for pixel in pixels]\n", "        self.pixel_indices = list(pixels)\n", 'C19.PIXEL-MASK'),
+    M('C19', 'update_screen masks with the palette size instead of bpp', SC, "        pixel_mask = (1 << self.bpp) - 1\n        raw = ", "        pixel_mask = self.palette_size - 1\n        raw = ", 'C19.PIXEL-MASK'),
+    M('C19', 'EQ update_screen masks through a private helper', SC, "        pixel_mask = (1 << self.bpp) - 1\n        raw = self._read_packed_bytes(screen_bit_address, self.width * self.height)\n        self.pixel_indices = [pixel & pixel_mask for pixel in raw]\n", "        self.pixel_indices = self._read_pixels(screen_bit_address, self.width * self.height)\n", None,
+      also=[(SC, "    def _set_palette(self, palette_bit_address: int) -> None:\n", "    def _read_pixels(self, first_op_bit_address: int, count: int) -> List[int]:\n        pixel_mask = (1 << self.bpp) - 1\n        return [pixel & pixel_mask for pixel in self._read_packed_bytes(first_op_bit_address, count)]\n\n    def _set_palette(self, palette_bit_address: int) -> None:\n")]),
+    M('C19', 'EQ update_screen_raw reduces modulo 2**bpp', SC, "        self.pixel_indices = [pixel & pixel_mask for pixel in pixels]\n", "        self.pixel_indices = [pixel % (1 << self.bpp) for pixel in pixels]\n", None),
 ]
